@@ -7,6 +7,19 @@ CLAIMS = {
         'wrong-length output rejected before any store, every package call site passes a matching output length.',
    note='Trusted: CPython ast, the avs analyser, numba wrapping of negative scalar indices. Not decided: numeric overflow of narrow dtypes, agreement of float results with numpy.cumsum.',
    design_ref='DESIGN.md section 4, C19'),
+ 'C04': dict(
+   technique='static analysis: bit-provenance abstract domain (64 symbolic input bits) + exact polynomial normal forms, compared with the documented layout table',
+   text='Decides the integer part of the RVint and aux decoders for every word at once: each output bit of every store is traced to its input bit, '
+        'the affine/scale part is normalised to an exact polynomial (boxsize/1e6, (f-2048)*6000/2048, f*box/ppd-box/2, f^2) and compared with the layout; '
+        'output selection guards, axis agreement and the wrappers\' allocation tables are checked structurally.',
+   note='Trusted: numba integer promotion (int32 op uint32 -> int64 sign-extended), CPython ast. Not decided: float rounding (the half-quantum bound follows analytically), library allocation behaviour.',
+   design_ref='DESIGN.md section 4, C04'),
+ 'C15': dict(
+   technique='static analysis: bit-provenance domain over the 72 record bits (bijection check) + polynomial normal forms of the header/particle formulas + syntax-directed record-discipline rule',
+   text='Decides that the nibble expansion partitions the 72 bits of a record into six 12-bit fields for every byte pattern, that header records store nothing and particle records '
+        'store at the write counter which is incremented exactly once and returned, and that positions/velocities of the three axes have one consistent cell-relative polynomial form.',
+   note='The repository has no independent description of the pack9 constants: the oracle is internal consistency plus the property statement. Float rounding not modelled.',
+   design_ref='DESIGN.md section 4, C15'),
 }
 _NB = 'rule family not built yet in this session (claimed only once its checker exists; see DESIGN.md section 4)'
 NOT_APPLICABLE = {f'C{n:02d}': _NB for n in range(1, 21) if f'C{n:02d}' not in CLAIMS}
